@@ -3,6 +3,7 @@ parallel exhaustive map.  No moPepGen import here (so it is usable by every chec
 from __future__ import annotations
 import argparse, atexit, hashlib, json, multiprocessing as mp, os, shutil, subprocess, sys, tempfile, time, traceback
 from pathlib import Path
+from urllib.parse import quote, unquote
 
 VERIF = Path(__file__).resolve().parent.parent
 REPO = Path(os.environ.get('VERIF_REPO', '/repo'))
@@ -51,8 +52,13 @@ def load_known(pid: str):
             parts = line[5:].split()
             if len(parts) < 2 or parts[0] != f'property={pid}' or not parts[1].startswith('key='):
                 continue
-            out[parts[1][4:]] = ' '.join(parts[2:])
+            out[unquote(parts[1][4:])] = ' '.join(parts[2:])
     return out
+
+
+def quote_key(key: str) -> str:
+    """Keys are stored percent-encoded in known_findings.txt (they may contain spaces)."""
+    return quote(key, safe="/:=;,@|+*<>-_.()[]{}!~'&")
 
 
 class Run:
